@@ -128,8 +128,10 @@ def execute(case, sched=None):
                 og, of = PR.make_optimize_function(case.get("opt"))
                 return cubed.compute(*arrs, executor=ex, optimize_graph=og, optimize_function=of)
 
-            def judge(label, got, want, vid, collide):
-                d = G.compare(np.asarray(got), want, exact=shadow.exact[vid], lowprec=shadow.lowprec[vid])
+            def judge(label, got, want, vid, collide, other=None):
+                ex = shadow.exact[vid] and (other is None or shadow.exact[other])
+                lp = shadow.lowprec[vid] or (other is not None and shadow.lowprec[other])
+                d = G.compare(np.asarray(got), want, exact=ex, lowprec=lp)
                 if d is not None:
                     violations.append(dict(cls="wrong_value_" + label.split(":")[0],
                                            msg=f"{label} (value {vid}): {d}", name_collision=collide))
@@ -188,8 +190,8 @@ def execute(case, sched=None):
                                  and not shadow.random[o]]
                         if other:
                             o = other[-1]
-                            combos.append(("combined: remote * other local value", lambda o=o: remote * twin.values[o], want * shadow.values[o]))
-                    for label, mk, exp in combos:
+                            combos.append(("combined: remote * other local value", lambda o=o: remote * twin.values[o], want * shadow.values[o], o))
+                    for label, mk, exp, *oth in combos:
                         try:
                             z = mk()
                         except Exception:  # noqa: BLE001 - cubed declines the combination
@@ -197,7 +199,7 @@ def execute(case, sched=None):
                             continue
                         (r,) = comp([z])
                         counters["combos"] += 1
-                        judge(label, r, exp, vid, collide)
+                        judge(label, r, exp, vid, collide, other=oth[0] if oth else None)
                     # same-process round trip of a local array
                     if twin is not None and twin.values[vid] is not None:
                         rt = cloudpickle.loads(cloudpickle.dumps(twin.values[vid]))
